@@ -40,6 +40,10 @@ func c04checkHeader(h *common.Header, typ uint8, xid uint32, n int) {
 	vr.Assert(h.Version == 4 && h.Type == typ && h.Xid == xid && int(h.Length) == n, "header-fields")
 }
 
+// c04allKinds: the thorough tier draws the first field of a match from every kind; list harnesses
+// turn it off for all but their first element
+var c04allKinds = true
+
 // c04match writes a match with k fields and returns the OXM bytes of each field
 func c04match(w *refW, max int) [][]byte {
 	start := len(w.b)
@@ -48,16 +52,20 @@ func c04match(w *refW, max int) [][]byte {
 	var oxms [][]byte
 	k := vr.IntRange("nfields", 0, max)
 	for i := 0; i < k; i++ {
-		// quick: 1-byte, masked 6-byte, masked 2-byte, 4-byte and masked 16-byte kinds; thorough: every kind
+		// quick: 1-byte, masked 6-byte, masked 2-byte, 4-byte and masked 16-byte kinds; thorough: every
+		// kind in the first position (every kind followed by a second field is MatchFieldKinds' subject)
+		all := vr.Thorough() && i == 0 && c04allKinds
 		kinds := 5
-		if vr.Thorough() {
+		if all {
 			kinds = nFieldKinds - 2
 		}
 		kind := vr.Choice("fkind", kinds)
-		if !vr.Thorough() {
+		if !all {
 			kind = fieldShort[kind]
 		}
+		shortMode = true
 		_ = buildField(kind) // draws the symbolic value / mask (the library object is not used)
+		shortMode = false
 		fw := &refW{}
 		refOXM(fw)
 		oxms = append(oxms, fw.b)
@@ -338,7 +346,7 @@ func VerifC04_MultipartDesc() {
 func VerifC04_MultipartFlow() {
 	w := &refW{}
 	xid, flags := c04mp(w, 1)
-	k := vr.IntRange("nrec", 0, c04n())
+	k := vr.IntRange("nrec", 0, 2)
 	type rec struct {
 		table                    uint8
 		ds, dn                   uint32
@@ -365,23 +373,19 @@ func VerifC04_MultipartFlow() {
 		w.u64(r.cookie)
 		w.u64(r.pk)
 		w.u64(r.by)
+		c04allKinds = i == 0
 		r.oxms = c04match(w, 1)
+		c04allKinds = true
 		// instruction lists: none / goto-table / goto-table + apply-actions with one action
-		// (thorough: up to two instructions of any kind)
+		// (the thorough tier widens the first record's match to every field kind instead: three
+		// records with arbitrary instructions ran to millions of paths)
 		iw := &refW{}
-		if vr.Thorough() {
-			r.ninstr = vr.IntRange("ninstr", 0, 2)
-			for j := 0; j < r.ninstr; j++ {
-				c03instr(vr.Choice("ikind", nInstrKinds), iw, 1)
-			}
-		} else {
-			r.ninstr = vr.IntRange("ninstr", 0, 2)
-			if r.ninstr >= 1 {
-				c03instr(0, iw, 0)
-			}
-			if r.ninstr == 2 {
-				c03instr(3, iw, 1)
-			}
+		r.ninstr = vr.IntRange("ninstr", 0, 2)
+		if r.ninstr >= 1 {
+			c03instr(0, iw, 0)
+		}
+		if r.ninstr == 2 {
+			c03instr(3, iw, 1)
 		}
 		r.instrs = iw.b
 		w.raw(iw.b)
